@@ -1,5 +1,5 @@
 (** CalMatch.v — model of caldav/match.go (Filter, Match, match, matchCompFilter,
-    matchPropFilter, matchProp, matchCompTimeRange, matchPropTimeRange,
+    matchPropFilter, matchProp, matchCompTimeRange, matchEventTimeRange, matchPropTimeRange,
     matchParamFilter, matchTextMatch) and the RFC 4791 section 9.7-9.9
     specification it is proved against.
     No proofs here: this file is extracted and must build even when a proof breaks. *)
@@ -57,14 +57,16 @@ Record prop := mkProp {
 Definition trange := (option Z * option Z)%type.
 
 (** Component.RecurrenceSet: no RRULE ([NoRRule]), an error ([RRuleErr]), or a rule
-    set.  The set is oracle data: [between] tabulates rset.Between(start,end,true)
-    for the time ranges of the query (the model's input); [instances] are the
-    instance starts computed independently by the harness (the specification's
-    input). *)
+    set.  The set is oracle data: [seq] is what the real rset.Iterator() yields, in
+    the order it yields it (the model's input) — all of it when [horizon] is [None];
+    for a rule that does not end, [horizon = Some h] and [seq] holds what the
+    iterator yields up to and including [h], everything it yields later being after
+    [h].  [instances] are the instance starts computed independently by the harness
+    (the specification's input), cut at the same horizon. *)
 Inductive recinfo :=
 | NoRRule
 | RRuleErr
-| RSet (between : list (trange * list Z)) (instances : list Z).
+| RSet (seq : list Z) (horizon : option Z) (instances : list Z).
 
 Inductive comp := Comp (name : string) (props : list prop) (rec : recinfo) (children : list comp).
 
@@ -132,27 +134,6 @@ Definition date_time_end (c : comp) (startp : prop) : res Z :=
     end
   end.
 
-(** The zero time.Time as Unix seconds (January 1, year 1, 00:00:00 UTC). *)
-Definition go_zero : Z := (-62135596800)%Z.
-Definition time_or_zero (t : option Z) : Z := match t with Some z => z | None => go_zero end.
-
-(** The documented contract of rrule's Between(after, before, inc=true) on the
-    instance list. *)
-Definition spec_between (s e : option Z) (insts : list Z) : list Z :=
-  filter (fun i => (time_or_zero s <=? i)%Z && (i <=? time_or_zero e)%Z) insts.
-
-Definition oz_eqb (a b : option Z) : bool :=
-  match a, b with
-  | None, None => true
-  | Some x, Some y => Z.eqb x y
-  | _, _ => false
-  end.
-Fixpoint lookup_tr (s e : option Z) (tbl : list (trange * list Z)) : option (list Z) :=
-  match tbl with
-  | [] => None
-  | ((s', e'), l) :: rest => if oz_eqb s s' && oz_eqb e e' then Some l else lookup_tr s e rest
-  end.
-
 (** * The model of match.go *)
 
 Definition match_text_match (txt : text_match) (value : string) : bool :=
@@ -218,25 +199,51 @@ Definition match_prop_filter (f : prop_filter) (c : comp) : res bool :=
   if prf_nd f then Ok (match fields with [] => true | _ => false end)
   else any_res (match_prop f) fields.
 
+(** matchEventTimeRange: an event, or one instance of a recurring one, lasting from
+    [a] to [b] against the range; [has_end]: the event states a DTEND. *)
+Definition match_event_time_range (s e : option Z) (a b : Z) (has_end : bool) : bool :=
+  if negb (before_end a e) then false
+  else if (a <? b)%Z || has_end then start_before s b
+  else not_before a s.
+
+(** matchCompTimeRange's loop over rset.Iterator(): the instances in the order the
+    iterator yields them, each lasting [d]; it ends when the iterator does, at the
+    first instance that starts at or after the end of the range, or at the first
+    that overlaps.  Past the horizon of a cut [seq] the iterator yields instances
+    after [h]: the next one ends the loop if the range ends by [h]; otherwise the
+    oracle data does not tell ([Err 0], never a Go outcome). *)
+Fixpoint rec_loop (s e : option Z) (d : Z) (has_end : bool) (horizon : option Z) (seq : list Z) : res bool :=
+  match seq with
+  | [] =>
+    match horizon with
+    | None => Ok false
+    | Some h =>
+      match e with
+      | Some e' => if (e' <=? h)%Z then Ok false else Err 0
+      | None => Err 0
+      end
+    end
+  | i :: rest =>
+    if negb (before_end i e) then Ok false
+    else if match_event_time_range s e i (i + d) has_end then Ok true
+    else rec_loop s e d has_end horizon rest
+  end.
+
 Definition match_comp_time_range (s e : option Z) (c : comp) : res bool :=
   match c_rec c with
   | RRuleErr => Err 500
-  | RSet tbl _ =>
-    match lookup_tr s e tbl with
-    | Some l => Ok (match l with [] => false | _ => true end)
-    | None => Err 0    (* oracle data missing: never a Go outcome *)
-    end
-  | NoRRule =>
-    if negb (String.eqb (c_name c) "VEVENT") then Ok false
+  | r =>
+    if (match r with NoRRule => negb (String.eqb (c_name c) "VEVENT") | _ => false end) then Ok false
     else match props_get "DTSTART" c with
          | None => Ok false
          | Some sp =>
            do a <- prop_datetime sp;
            do b <- date_time_end c sp;
-           if negb (before_end a e) then Ok false
-           else if (a <? b)%Z || (match props_get "DTEND" c with Some _ => true | None => false end)
-                then Ok (start_before s b)
-                else Ok (not_before a s)
+           let has_end := match props_get "DTEND" c with Some _ => true | None => false end in
+           match r with
+           | RSet seq horizon _ => rec_loop s e (b - a) has_end horizon seq
+           | _ => Ok (match_event_time_range s e a b has_end)
+           end
          end
   end.
 
@@ -412,7 +419,7 @@ Definition rec_spec (s e : option Z) (c : comp) (insts : list Z) : bool :=
     records that (see notes/C06.md, "Partial"). *)
 Definition rfc4791_time_range (s e : option Z) (c : comp) : bool :=
   match c_rec c with
-  | RSet _ insts => rec_spec s e c insts
+  | RSet _ _ insts => rec_spec s e c insts
   | _ =>
     if String.eqb (c_name c) "VEVENT"
     then match event_kind c with Some k => overlaps s e k | None => false end
@@ -484,9 +491,8 @@ Fixpoint ptr_pairs (f : comp_filter) (c : comp) {struct f} : list prop :=
 Definition comp_time_ok (c : comp) : bool :=
   match c_rec c with
   | RRuleErr => false
-  | RSet _ _ => true
-  | NoRRule =>
-    if String.eqb (c_name c) "VEVENT"
+  | r =>
+    if (match r with NoRRule => String.eqb (c_name c) "VEVENT" | _ => true end)
     then match first_named "DTSTART" c with
          | None => true
          | Some _ => match event_kind c with Some _ => true | None => false end
@@ -500,8 +506,13 @@ Definition times_ok (f : comp_filter) (c : comp) : bool :=
   forallb (fun tc => comp_time_ok (snd tc)) (tr_pairs f c)
   && forallb (fun p => match p_time p with TBad => false | _ => true end) (ptr_pairs f c).
 
-(** rrule's Between obeyed its contract wherever the query consulted it (checked
-    by the oracle on every case; the instance list is computed independently). *)
+(** rrule-go kept its contract wherever the query consulted it (checked by the
+    oracle on every case; the instance list is computed independently): the
+    iterator yielded exactly the instances, in ascending order; and where the list
+    is cut at a horizon, the cut cannot matter: the range ends by the horizon, or a
+    listed instance already overlaps it, or the component states no readable
+    extent and the instances are not looked at (see [rec_spec_later_instances] in
+    CalMatchProofs.v). *)
 Fixpoint lz_eqb (a b : list Z) : bool :=
   match a, b with
   | [], [] => true
@@ -509,51 +520,36 @@ Fixpoint lz_eqb (a b : list Z) : bool :=
   | _, _ => false
   end.
 
-Definition between_ok_at (tc : trange * comp) : bool :=
+Fixpoint ascending (l : list Z) : bool :=
+  match l with
+  | [] => true
+  | x :: rest => forallb (fun y => (x <=? y)%Z) rest && ascending rest
+  end.
+
+Definition horizon_covers (s e : option Z) (c : comp) (horizon : option Z) (insts : list Z) : bool :=
+  match horizon with
+  | None => true
+  | Some h =>
+    match e with
+    | Some e' => (e' <=? h)%Z
+    | None => match event_kind c with Some _ => rec_spec s e c insts | None => true end
+    end
+  end.
+
+Definition rset_ok_at (tc : trange * comp) : bool :=
   let '((s, e), c) := tc in
   match c_rec c with
-  | RSet tbl insts =>
-    match lookup_tr s e tbl with
-    | Some l => lz_eqb l (spec_between s e insts)
-    | None => false
-    end
+  | RSet seq horizon insts =>
+    lz_eqb seq insts && ascending insts && horizon_covers s e c horizon insts
   | _ => true
   end.
-Definition between_ok (f : comp_filter) (c : comp) : bool := forallb between_ok_at (tr_pairs f c).
+Definition rset_ok (f : comp_filter) (c : comp) : bool := forallb rset_ok_at (tr_pairs f c).
 
-(** * Known finding [recurring_overlap]
-
-    For a recurring component match.go asks whether an instance START lies in the
-    closed interval [start, end] (an absent end never matches); the RFC asks whether
-    an instance OVERLAPS [start, end).  The selector: a time range of the query is
-    evaluated on a recurring component for which the two answers differ. *)
-Definition rec_go (s e : option Z) (insts : list Z) : bool :=
-  match spec_between s e insts with [] => false | _ => true end.
-
-(** What match.go computes for a time range on a component when no error occurs
-    (it differs from the RFC's rule on recurring components only). *)
-Definition go_time_range (s e : option Z) (c : comp) : bool :=
-  match c_rec c with
-  | RSet _ insts => rec_go s e insts
-  | _ => rfc4791_time_range s e c
-  end.
-Definition go_comp (f : comp_filter) (c : comp) : bool := scope_with go_time_range f [c].
-
-Definition rec_disagree (tc : trange * comp) : bool :=
-  let '((s, e), c) := tc in
-  match c_rec c with
-  | RSet _ insts => negb (Bool.eqb (rec_go s e insts) (rec_spec s e c insts))
-  | _ => false
-  end.
-
-Definition kf_recurring_overlap (f : comp_filter) (c : comp) : bool :=
-  existsb rec_disagree (tr_pairs f c).
-
-(** Calendars without recurring components: the finding cannot arise. *)
+(** Calendars without recurring components. *)
 Fixpoint all_comps (c : comp) : list comp :=
   match c with Comp _ _ _ children => c :: flat_map all_comps children end.
 Definition no_recurring (c : comp) : bool :=
-  forallb (fun x => match c_rec x with RSet _ _ => false | _ => true end) (all_comps c).
+  forallb (fun x => match c_rec x with RSet _ _ _ => false | _ => true end) (all_comps c).
 
 (** * Correspondence verdicts *)
 
@@ -580,7 +576,7 @@ Definition match_spec_ok (f : comp_filter) (o : cobj) (ob : mobs) : bool :=
   match o_data o with
   | None => match ob with MPanic => true | _ => false end
   | Some c =>
-    if between_ok f c
+    if rset_ok f c
     then match ob with
          | MOk b => Bool.eqb b (rfc4791_comp f c)
          | MErr => negb (times_ok f c)
@@ -588,10 +584,6 @@ Definition match_spec_ok (f : comp_filter) (o : cobj) (ob : mobs) : bool :=
          end
     else match_agrees f o ob
   end.
-
-(** The case is one the known finding covers. *)
-Definition match_kf (f : comp_filter) (o : cobj) : bool :=
-  match o_data o with Some c => between_ok f c && kf_recurring_overlap f c | None => false end.
 
 Fixpoint ln_eqb (a b : list N) : bool :=
   match a, b with
@@ -608,8 +600,8 @@ Definition filter_agrees (q : option comp_filter) (os : list cobj) (ob : fobs) :
   | _, _ => false
   end.
 
-Definition obj_between_ok (f : comp_filter) (o : cobj) : bool :=
-  match o_data o with Some c => between_ok f c | None => true end.
+Definition obj_rset_ok (f : comp_filter) (o : cobj) : bool :=
+  match o_data o with Some c => rset_ok f c | None => true end.
 Definition obj_matches (f : comp_filter) (o : cobj) : bool :=
   match o_data o with Some c => rfc4791_comp f c | None => false end.
 Definition obj_unreadable (f : comp_filter) (o : cobj) : bool :=
@@ -625,17 +617,11 @@ Definition filter_spec_ok (q : option comp_filter) (os : list cobj) (ob : fobs) 
   | None =>
     match ob with FOk tags unmod => ln_eqb (map o_tag os) tags && unmod | _ => false end
   | Some f =>
-    if forallb (obj_between_ok f) os
+    if forallb (obj_rset_ok f) os
     then match ob with
          | FOk tags unmod => ln_eqb (map o_tag (filter (obj_matches f) os)) tags && unmod
          | FErr => existsb (obj_unreadable f) os
          | FPanic => existsb obj_nil os
          end
     else filter_agrees q os ob
-  end.
-
-Definition filter_kf (q : option comp_filter) (os : list cobj) : bool :=
-  match q with
-  | None => false
-  | Some f => forallb (obj_between_ok f) os && existsb (match_kf f) os
   end.
